@@ -255,6 +255,14 @@ def obligations_for(prop, audit):
     return expected + ge, discharged + gd, problems + gp
 
 
+def obligations_split(prop, audit):
+    """(expected, discharged, problems) of the property's own theorems and (expected, discharged, problems) of the source-tie theorems it
+    lists, separately: the source tie is a SECOND tie of the model's helper definitions to the code, next to the behavioural one"""
+    full_e, full_d, full_p = obligations_for(prop, audit)
+    ge, gd, gp = gen_problems(prop, audit)
+    return ([t for t in full_e if t not in ge], [t for t in full_d if t not in gd], [x for x in full_p if x not in gp]), (ge, gd, gp)
+
+
 MEM_LIMIT = 16 << 30       # address space of a harness process that drives the real code (a changed library may ask for anything)
 
 
